@@ -42,7 +42,7 @@ def parseApp (s : String) : Option App :=
     let f ← f.toNat?
     let l ← natList l
     let m ← parseMods m
-    if n ≤ 3 ∧ t < 1000 ∧ l.all (· < 8) ∧ l.length ≤ 4 ∧ m.length ≤ 4 ∧
+    if n ≤ 3 ∧ t < 1000 ∧ l.all (· < 11) ∧ l.length ≤ 4 ∧ m.length ≤ 4 ∧
         (if n = 3 then f = 0 ∨ f = 2 ∨ (f = 6 ∧ l ≠ []) else f ≤ 5 ∧ f ≠ 1) ∧
         -- keys ≥ 4 are real reverse_proxy handlers: only in the HTTP app, never "unknown"
         m.all (fun g => g.key < 4 ∨ (n = 3 ∧ g.fault ≠ 1)) then some ⟨n, t, f, l, m⟩ else none
@@ -60,7 +60,10 @@ def parseCfg3 (t l a : String) (st : Mod) : Option Cfg := do
   let t ← t.toNat?
   let l ← parseMods l
   let a ← if a == "-" then some [] else (a.splitOn ";").mapM parseApp
-  if t ≤ 3 ∧ logsOk l ∧ strictlySorted (a.map (·.name)) ∧ st.key ≤ 3 ∧ (st.key = 0 → st.fault = 0)
+  -- at most one listener of a configuration names the unix socket (tokens 8‥10): descriptors of one
+  -- unix socket share a single accept queue, so "who answers" is only determined with one of them
+  if t ≤ 3 ∧ logsOk l ∧ strictlySorted (a.map (·.name)) ∧ st.key ≤ 3 ∧ (st.key = 0 → st.fault = 0) ∧
+      ((a.flatMap (·.listen)).filter (· ≥ 8)).length ≤ 1
   then some ⟨t, l, a, st⟩ else none
 
 def parseCfg (s : String) : Option Cfg :=
@@ -113,7 +116,8 @@ def parseOp (s : String) : Option Op :=
   | ["P", a, e] => do
     let a ← parseApp a
     -- the phase-2 fault needs the tls/pki apps of a whole configuration next to the HTTP app
-    if a.fault = 6 then none else pure (.patch a (← parseEnv e))
+    -- … and a partial change does not introduce the unix socket (another app may have it)
+    if a.fault = 6 ∨ ¬ a.listen.all (· < 8) then none else pure (.patch a (← parseEnv e))
   | ["D", n, e] => do
     let n ← n.toNat?
     if n ≤ 3 then pure (.del n (← parseEnv e)) else none
@@ -158,11 +162,14 @@ def insertStr (x : String) : List String → List String
 
 def sortStrs (l : List String) : List String := l.foldr insertStr []
 
-/-- sockets: for every address 0‥7 with at least one socket `addr:count:tag.tag…` -/
+/-- sockets: for every socket 0‥8 (`sockId`: the TCP addresses, and the unix socket under all its
+    spellings) with at least one open descriptor `socket:count:tag.tag…` -/
 def showSocks (socks : List Sock) : String :=
-  let parts := (List.range 8).filterMap fun a =>
-    let on := socks.filter (·.addr == a)
+  let parts := (List.range 9).filterMap fun a =>
+    let on := socks.filter (sockId ·.addr == a)
     if on.isEmpty then none
+    -- (the unix socket has no observable usage count: listenerPool counts only its first listener)
+    else if a = 8 then some s!"{a}:u:{showNats (sortDedup (on.map (·.tag)))}"
     else some s!"{a}:{on.length}:{showNats (sortDedup (on.map (·.tag)))}"
   if parts.isEmpty then "-" else ",".intercalate parts
 
